@@ -8,7 +8,7 @@ for d in /verif/seeded/*-*/; do
   [ -f "$d/matrix.json" ] && continue
   id=$(basename $d)
   case "$id" in
-    R*) python3 /verif/tools/seedtest.py matrix "$d" > "$d/matrix.log" 2>&1 ;;
+    R*|S*) python3 /verif/tools/seedtest.py matrix "$d" > "$d/matrix.log" 2>&1 ;;
     REVERT*) own=$(python3 -c "import json;print(' '.join(json.load(open('$d/extra.json'))['owning']))"); python3 /verif/tools/seedtest.py matrix "$d" $own > "$d/matrix.log" 2>&1 ;;
     *) python3 /verif/tools/seedtest.py matrix "$d" ${id%%-*} > "$d/matrix.log" 2>&1 ;;
   esac
